@@ -61,7 +61,8 @@ def make_result(seedt):
         kw.update(Jdes=int(rng.choice([8, 30, 80])), Kdes=int(rng.choice([2, 20])),
                   olap=float(rng.choice([0.3, 0.5, 0.75])))
     elif shape == "single":
-        single = (float(rng.uniform(0.01, 0.49)) * fs, int(rng.choice([1, 7, 64, N])))
+        single = api.single_bin_request(rng, fs, N) if rng.random() < 0.6 else \
+            (float(rng.uniform(0.01, 0.49)) * fs, {"L": int(min(N, rng.choice([1, 7, 64, N])))}, "interior/L")
         kw.update(olap=0.5)
     elif shape == "uniformK":
         kw.update(olap=0.0, Kdes=1, Lmin=int(N // rng.choice([2, 3, 4])), Jdes=20)
@@ -80,7 +81,7 @@ def make_result(seedt):
             kw2["band"] = (float(f[j]), float(f[j]))
         an = SpectrumAnalyzer(data, fs, **kw2)
         if single is not None:
-            return an.compute_single_bin(single[0], L=min(single[1], N))
+            return an.compute_single_bin(single[0], **single[1])
         return an.compute()
     return factory, fs, desc
 
